@@ -51,11 +51,11 @@ def gen_ops(rng):
             ops.append({"op": o, "s": s, "n": "n1"} if o == "N" else {"op": o, "s": s})
             wrapped = True
             for _ in range(rng.choice([0, 0, 1, 2, 3])):
-                ops.append({"op": "Call", "s": s, "arg": rng.choice([1, 2, 3, 4, 5, 6, 5, 6]), "fresh": rng.random() < 0.5})
+                ops.append({"op": "Call", "s": s, "arg": rng.choice([1, 2, 3, 4, 5, 6, 5, 6, 7, 8, 9, 1, 7]), "fresh": rng.random() < 0.5})
         if rng.random() < 0.5:
             ops.append({"op": "N", "s": s, "n": "n2"})  # a second name (raises iff one was given)
         for _ in range(rng.choice([1, 2, 4])):
-            ops.append({"op": "Call", "s": s, "arg": rng.choice([1, 2, 3, 4, 5, 6, 5, 6]), "fresh": rng.random() < 0.5})
+            ops.append({"op": "Call", "s": s, "arg": rng.choice([1, 2, 3, 4, 5, 6, 5, 6, 7, 8, 9, 1, 7]), "fresh": rng.random() < 0.5})
     ops.append({"op": "EqW", "s": 1})
     return ops
 
@@ -71,7 +71,8 @@ def record_one(job):
     f = make_base(base, calls)
     slots = {1: f, 2: f}
     # two scalars, two arrays, and -1.0 / -2.0 (distinct numbers whose Python hashes coincide)
-    args = {1: 1.0, 2: 2.0, 3: np.array([1.0, 2.0]), 4: np.array([1.0, 3.0]), 5: -1.0, 6: -2.0}
+    args = {1: 1.0, 2: 2.0, 3: np.array([1.0, 2.0]), 4: np.array([1.0, 3.0]), 5: -1.0, 6: -2.0,
+            7: np.array([]), 8: np.array([1.0]), 9: np.array([1.0, 1.0])}
     events = []
     for op in job["ops"]:
         ev = dict(op)
